@@ -206,7 +206,8 @@ def compare(s, a, b, la, lb, upto, counts, near=0.05, limit_steps=()):
                 if nd["t"] == "junc":
                     for r in (a, b):
                         p = float(r.node["pressure"][nd["n"]][i])
-                        if s["opts"]["pmin"] - 0.05 < p < s["opts"]["preq"] + 0.05:
+                        # WNTR smooths the corners of the pressure-demand curve over 0.05 m, EPANET does not
+                        if abs(p - s["opts"]["pmin"]) < 0.15 or abs(p - s["opts"]["preq"]) < 0.15:
                             inside = True
             if inside:
                 counts["pdd_band_steps"] = counts.get("pdd_band_steps", 0) + 1
